@@ -124,9 +124,12 @@ CHECKS = {
         "flag setting and call sequence (native path), clf_is_fresh_fit_partial on clean runs with the counterexample for the recorded non-atomic partial_fit "
         "finding, speedup_never_changes_prediction over whole histories on the repaired code. Tie: random and exhaustive op sequences on the real wrapper around a "
         "recording spy classifier, ParzenWindowClassifier (speed-up on/off in lock-step) and SklearnClassifier(GaussianNB); state compared after every call; "
-        "predictions compared with a fresh clone trained on the implied multiset.",
+        "predictions compared with a fresh clone trained on the implied multiset. Translator tie: harness/translate/pywrapper.py re-translates the helpers "
+        "_get_sw/_copy_sw/_concat_sw and the new-training-record block of the emulated partial_fit from the current source into Gen/WrapperGen.lean on every run; "
+        "merge_eq proves the generated block equal to the model's merge for all inputs, gen_merge_spec / gen_merge_total / gen_merge_mixed / gen_merge_nodup are "
+        "stated about the generated text, and skawrapgendriver executes it against the record the real object holds after partial_fit.",
         design="§4 C19",
-        technique="Lean 4 proof (refinement + induction over op sequences) + state-level correspondence",
+        technique="Lean 4 proof (refinement + induction over op sequences; bridging proof for the translated source) + state-level correspondence",
     ),
     "C17": dict(
         text="Lean 4 theorems: voteVectors_eq_count (V[i][c] = sum_j w[i][j]*[y[i][j]=c] for all shapes, missing and NaN-weight patterns, any semiring), "
